@@ -38,7 +38,7 @@ ROWS = {
          "`rt_mt`: locked pool with hook H2 traces, TSan thread programs for the three clauses incl. the single-threaded corpora run concurrently"),
  "C18": ("`EqOk` in `MC_Dom` / `MC_Sonic` (`IEq` = `REq`, both directions, copy)",
          "`rt_dom`: ==, != vs `REq` after every step, reflexivity, cross-allocator copy, parse of Dump"),
- "C19": ("`Gen_Schema` pairs (78k), wide3, nest2, esckeys, layouts; `Gen_RandMerge` (simulation, update sequences); `Idempotent`",
+ "C19": ("`MC_Schema` (`ModelOk`: handler I-model = `SchemaMerge` + recorded deviation; pre-repair variant violates); `Gen_Schema` pairs (78k), wide3, nest2, esckeys, layouts; `Gen_RandMerge` (simulation, update sequences); `Idempotent`",
          "`rt_merge schema`: Parse + ParseSchema once / twice / two different texts, pool + freeing allocator, ASan"),
  "C20": ("`Gen_Schema` pairs, wide3, nest2, esckeys, widearr, layouts; `Gen_RandMerge`",
          "`rt_merge lazy`: UpdateLazy on exact-size buffers, ASan"),
